@@ -890,12 +890,11 @@ func (p *parser) scanDollar() (*RegexNode, error) {
 			}
 		}
 	} else if angled && p.isGroupNameStartChar(ch) {
+		// a name that does not scan (ECMAScript: `${\x}`) is not a group reference,
+		// it is literalized like any other unrecognized $-form
 		capname, err := p.scanCapname()
-		if err != nil {
-			return nil, err
-		}
 
-		if p.charsRight() > 0 && p.moveRightGetChar() == '}' {
+		if err == nil && p.charsRight() > 0 && p.moveRightGetChar() == '}' {
 			if p.isCaptureName(capname) {
 				return newRegexNodeM(NtRef, p.options, p.captureSlotFromName(capname)), nil
 			}
